@@ -110,7 +110,9 @@ func vfC11Server(k vfC11Kind, header, initLog bool, turns []VfTurn) *Server {
 	}
 	handler := func(ctx context.Context, cc *CallContext, p VfXParams) (*StreamResult, error) {
 		if initLog {
-			cc.ClientLog(LogInfo, "init-log")
+			// two messages, so a transport that repeats or reorders them shows
+			cc.ClientLog(LogInfo, "init-A")
+			cc.ClientLog(LogDebug, "init-B")
 		}
 		r := &StreamResult{OutputSchema: vfOutSchema, State: mkState(p.X)}
 		if k.dynInput {
@@ -175,10 +177,11 @@ func TestVerif_C11(t *testing.T) {
 		compress bool
 	}
 	type hl struct{ header, initLog bool }
-	hls := []hl{{false, false}, {true, false}}
-	if venum.Thorough() {
-		hls = append(hls, hl{true, true}, hl{false, true})
-	}
+	// header x "init handler logs": all four combinations in both tiers. In the
+	// quick tier the init-log combinations run scripts of length <= 1 (the init
+	// logs are written before the first turn; the long scripts are crossed with
+	// them in the thorough tier).
+	hls := []hl{{false, false}, {true, false}, {true, true}, {false, true}}
 	var combos []combo
 	for _, comp := range []bool{false, true} {
 		for _, c := range caches {
@@ -203,6 +206,9 @@ func TestVerif_C11(t *testing.T) {
 		maxLen := maxLenExchange
 		if k.producer {
 			maxLen = maxLenProducer
+		}
+		if cb.initLog && !venum.Thorough() {
+			maxLen = 1
 		}
 		for len(turns) < maxLen {
 			c := x.Choose(len(turnDefs)+1, fmt.Sprintf("turn%d", len(turns)))
